@@ -290,11 +290,13 @@ impl<T> BackendEventLog<T> {
     { unimplemented!() }
 
     /// `rewind(commit)` — file system: iterates `self.iter(true)` (newest first),
-    /// PUSHES every row onto `records` until it meets the row whose commit equals the
-    /// target, truncates file and tree after that row and returns `records`; database:
-    /// the same over `record_stream(true)`.  Hence: the log keeps the rows up to and
-    /// including the LAST row with that commit, and the removed suffix is returned
-    /// NEWEST FIRST (reverse log order).  `Err(CommitNotFound)` when no row has the commit.
+    /// pushes every row onto `records` until it meets the row whose commit equals the
+    /// target, truncates file and tree after that row, then `records.reverse()` and
+    /// returns them; database: the same over `record_stream(true)`, `records.reverse()`
+    /// before `Ok(records)`.  Hence: the log keeps the rows up to and including the LAST
+    /// row with that commit, and the removed suffix is returned IN LOG ORDER (so that
+    /// `apply_records` of it reverts the rewind).  `Err(CommitNotFound)` when no row has
+    /// the commit.
     #[verifier::external_body]
     pub fn rewind(&mut self, commit: &CommitHash) -> (r: core::result::Result<Vec<EventRecord>, BackendError>)
         ensures
@@ -303,7 +305,7 @@ impl<T> BackendEventLog<T> {
                     let k = last_pos(old(self).recs(), commit.0@);
                     &&& is_last_pos(old(self).recs(), commit.0@, k)
                     &&& final(self).recs() == old(self).recs().take(k + 1)
-                    &&& rv(v@) == old(self).recs().skip(k + 1).reverse()
+                    &&& rv(v@) == old(self).recs().skip(k + 1)
                 },
                 Err(_) => final(self).recs() == old(self).recs(),
             },
